@@ -95,7 +95,7 @@ def build_expr(rng, spec, max_terms=3, exponent=False, occurrences=1, spin=False
     E = []
     for _ in range(rng.randint(0, 2)):
         sp = rng.choice("ov")
-        s = _sym(POOL[sp][rng.randrange(0, 2)])
+        s = _sym(POOL[sp][rng.randrange(0, 2)], rng.choice("ab") if spin else "")
         if s not in E:
             E.append(s)
     # target indices carried by the tensor are shared by all terms
@@ -111,12 +111,13 @@ def build_expr(rng, spec, max_terms=3, exponent=False, occurrences=1, spin=False
                 idx = []
                 for pos, ch in enumerate(slots):
                     sp = rng.choice("ov") if ch == "*" else ch
+                    spn = rng.choice("ab") if spin else ""
                     names = [n for n in POOL[sp][2:9]
-                             if _sym(n) not in contracted and _sym(n) not in carried]
+                             if _sym(n, spn) not in contracted and _sym(n, spn) not in carried]
                     if not names:
                         ok = False
                         break
-                    s = _sym(rng.choice(names))
+                    s = _sym(rng.choice(names), spn)
                     if s in idx and not (rng.random() < 0.15 and not all_contracted):
                         ok = False
                         break
@@ -182,8 +183,9 @@ def run_remove(sd):
     from adcgen.indices import Index
     spec = rng.choice(REMOVABLE)
     name, cls, shape, bks, slots = spec
+    spin = rng.random() < 0.3          # spin-labelled indices: mixed spin blocks of the removed tensor
     try:
-        raw, _ = build_expr(rng, spec)
+        raw, _ = build_expr(rng, spec, spin=spin, max_terms=2 if spin else 3)
     except RuntimeError:
         return {"status": "skipped", "item": sd}
     if raw is S.Zero or not consistent_bks(raw):
@@ -224,17 +226,19 @@ def run_remove(sd):
         allobj = {IR.idx_ir(s): s for s in bs.atoms(Index)}
         tens_idx = [allobj[k] for k in free if allobj[k] not in T]
         space_str = key[0].split("_")[0]
+        spin_str = key[0].split("_")[1] if "_" in key[0] else ""
         if len(tens_idx) != len(space_str):
             res["det"].append(f"block {key}: expression has {len(tens_idx)} free non-target indices, block has {len(space_str)}")
             continue
         by_space = {}
         for s in sorted(tens_idx, key=name_key):
-            by_space.setdefault(s.space[0], []).append(s)
+            by_space.setdefault((s.space[0], s.spin if spin_str else ""), []).append(s)
         # key space string is in the order of Obj.idx (amplitudes: lower, upper)
         slots_idx = []
         try:
-            for ch in space_str:
-                slots_idx.append(by_space[ch].pop(0))
+            for n_, ch in enumerate(space_str):
+                sp_ = spin_str[n_] if spin_str else ""
+                slots_idx.append(by_space[(ch, "" if sp_ == "n" else sp_)].pop(0))
         except (KeyError, IndexError):
             res["det"].append(f"block {key}: free indices {tens_idx} do not fit the block")
             continue
@@ -259,7 +263,9 @@ def run_remove(sd):
         return res
     irs = [IR.expr_ir(e.sympy), IR.expr_ir(R.expand())]
     Tir = {IR.idx_ir(s) for s in T}
-    model = pick_model(irs, Tir, MODELS, budget=250000)
+    model = pick_model(irs, Tir, [Model(2, 2, spin=True), Model(1, 1, spin=True)] if spin else MODELS,
+                       budget=250000)
+    res["spin"] = spin
     try:
         oc = compare(e.sympy, R.expand(), T, model, timeout_ms=TIMEOUT, seed=seed())
     except Unsupported as exc:
